@@ -11,6 +11,7 @@ impl StdFile {
     // current write position and the headers serialised so far, with the position of each
     pub uninterp spec fn pos(&self) -> int;
     pub uninterp spec fn log(&self) -> Seq<(int, RecordHeader)>;
+    pub uninterp spec fn attempts(&self) -> nat;
     #[verifier::external_body]
     pub fn write_all_vec(&mut self, buf: &Vec<u8>) -> (r: Result<(), TErr>)
         ensures r.is_ok() ==> final(self).pos() == old(self).pos() + buf@.len() && final(self).log() == old(self).log(),
@@ -67,7 +68,8 @@ impl StdFile {
     // std::io::Seek::seek(SeekFrom::Start(p))
     #[verifier::external_body]
     pub fn seek_start(&mut self, p: u64) -> (r: Result<u64, TErr>)
-        ensures r.is_ok() ==> final(self).pos() == p, final(self).log() == old(self).log()
+        ensures r.is_ok() ==> final(self).pos() == p, final(self).log() == old(self).log(), final(self).attempts() == old(self).attempts(),
+            r.is_err() ==> !(r->Err_0 is Tools) && !(r->Err_0 is PearlValidation)
     { unimplemented!() }
 }
 impl RecordHeader {
@@ -94,13 +96,16 @@ impl StdFile {
     // bincode::deserialize_from(&mut file): consumes exactly the serialized length of the header it returns
     #[verifier::external_body]
     pub fn deser_header(&mut self) -> (r: Result<RecordHeader, TErr>)
+        // (`attempts()`: how many record reads were started on this file - ghost counter)
         ensures r.is_ok() ==> final(self).pos() == old(self).pos() + header_len(r->Ok_0), final(self).log() == old(self).log(),
+            final(self).attempts() == old(self).attempts() + 1,
             r.is_err() ==> !(r->Err_0 is Tools) && !(r->Err_0 is PearlValidation),
     { unimplemented!() }
     // Read::read_exact(&mut buf)
     #[verifier::external_body]
     pub fn read_exact_vec(&mut self, buf: &mut Vec<u8>) -> (r: Result<(), TErr>)
         ensures r.is_ok() ==> final(self).pos() == old(self).pos() + old(buf)@.len(), final(buf)@.len() == old(buf)@.len(),
+            final(self).attempts() == old(self).attempts(),
             final(self).log() == old(self).log(), r.is_err() ==> !(r->Err_0 is Tools) && !(r->Err_0 is PearlValidation),
     { unimplemented!() }
 }
